@@ -22,7 +22,7 @@ inductive Off
 
 def stepOff (fix : Fix) (m : Master) : Off → Master
   | .ev e => stepEvent fix m e
-  | .tick => (drain m).2
+  | .tick => (drain fix m).2
   | .editValue id v ok => (editValue m id v ok).1
   | .editAttr id n v => (editAttr m id n v).1
   | .editDev n v => (editDev m n v).1
@@ -104,12 +104,12 @@ theorem findPort_upd_self (l : List MPort) (i id : Nat) (f : MPort → MPort) (h
   · have : ¬ i = id := fun e => h e.symm
     simp [h, this]
 
-theorem stepOff_port (vb : Bool) (m : Master) (x : Off) (id : Nat) (p : MPort) (hoff : m.online = false)
+theorem stepOff_port (vb kv : Bool) (m : Master) (x : Off) (id : Nat) (p : MPort) (hoff : m.online = false)
     (hp : findPort m.ports id = some p) (hx : x ≠ .ev (.portRemove id)) :
-    ∃ p1, findPort (stepOff ⟨vb, true⟩ m x).ports id = some p1 ∧ PortRel id x p p1 := by
+    ∃ p1, findPort (stepOff ⟨vb, true, kv⟩ m x).ports id = some p1 ∧ PortRel id x p p1 := by
   cases x with
-  | ev e => exact stepEvent_port_kept vb m e id p hp (fun h => hx (by rw [h]))
-  | tick => exact drain_port_kept m id p hp
+  | ev e => exact stepEvent_port_kept vb kv m e id p hp (fun h => hx (by rw [h]))
+  | tick => exact drain_port_kept _ m id p hp
   | editValue i v ok =>
     simp only [stepOff]; rw [editValue_offline m hoff]
     exact ⟨_, findPort_upd_self m.ports i id (valueEdit v) (fun _ => rfl) p hp, rfl⟩
@@ -144,11 +144,11 @@ theorem pendValue_of_kept {p p1 : MPort} {u : Int} (k : Kept p p1) (hv : p.pendV
   unfold MPort.pendValue at *
   rw [k2, k3 hs hq]; exact hv
 
-theorem stepOff_value (vb : Bool) (m : Master) (x : Off) (id : Nat) (p : MPort) (u : Int) (hoff : m.online = false)
+theorem stepOff_value (vb kv : Bool) (m : Master) (x : Off) (id : Nat) (p : MPort) (u : Int) (hoff : m.online = false)
     (hp : findPort m.ports id = some p) (hx : x ≠ .ev (.portRemove id)) (hv : p.pendValue = some u)
     (hq : p.rq = []) :
-    ∃ p1, findPort (stepOff ⟨vb, true⟩ m x).ports id = some p1 ∧ p1.pendValue = some (updV id u x) ∧ p1.rq = [] := by
-  obtain ⟨p1, hp1, hr⟩ := stepOff_port vb m x id p hoff hp hx
+    ∃ p1, findPort (stepOff ⟨vb, true, kv⟩ m x).ports id = some p1 ∧ p1.pendValue = some (updV id u x) ∧ p1.rq = [] := by
+  obtain ⟨p1, hp1, hr⟩ := stepOff_port vb kv m x id p hoff hp hx
   refine ⟨p1, hp1, ?_⟩
   cases x with
   | ev e => exact pendValue_of_kept hr hv hq
@@ -172,10 +172,10 @@ theorem stepOff_value (vb : Bool) (m : Master) (x : Off) (id : Nat) (p : MPort) 
 
 /-- Once a value is pending with the remote queue read out, every further history (events, ticks, edits of any
 kind on any port) leaves the LAST written value pending, and the queue stays empty. -/
-theorem runOff_value (vb : Bool) (id : Nat) (l : List Off) :
+theorem runOff_value (vb kv : Bool) (id : Nat) (l : List Off) :
     ∀ (m : Master) (p : MPort) (u : Int), m.online = false → findPort m.ports id = some p →
       Off.ev (.portRemove id) ∉ l → p.pendValue = some u → p.rq = [] →
-      ∃ p', findPort (runOff ⟨vb, true⟩ m l).ports id = some p' ∧ p'.pendValue = some (valAfter id u l) ∧
+      ∃ p', findPort (runOff ⟨vb, true, kv⟩ m l).ports id = some p' ∧ p'.pendValue = some (valAfter id u l) ∧
         p'.rq = [] := by
   induction l with
   | nil => intro m p u _ hp _ hv hq; exact ⟨p, hp, hv, hq⟩
@@ -183,8 +183,74 @@ theorem runOff_value (vb : Bool) (id : Nat) (l : List Off) :
     intro m p u hoff hp hnr hv hq
     have hx : x ≠ Off.ev (.portRemove id) := fun h => hnr (h ▸ List.mem_cons_self ..)
     have hr : Off.ev (.portRemove id) ∉ r := fun h => hnr (List.mem_cons_of_mem _ h)
-    obtain ⟨p1, hp1, hv1, hq1⟩ := stepOff_value vb m x id p u hoff hp hx hv hq
+    obtain ⟨p1, hp1, hv1, hq1⟩ := stepOff_value vb kv m x id p u hoff hp hx hv hq
     exact ih _ p1 _ (stepOff_online _ m x hoff) hp1 hr hv1 hq1
+
+/-! #### Repaired `read_value` (`keepPendingValue`): the same without the queue having been read out -/
+
+def PortRelV (id : Nat) : Off → MPort → MPort → Prop
+  | .ev _, p, p1 => KeptV p p1
+  | .tick, p, p1 => KeptV p p1
+  | .editValue i v _, p, p1 => p1 = if i = id then valueEdit v p else p
+  | .editAttr i n v, p, p1 => p1 = if i = id then attrEdit n v p else p
+  | .editDev _ _, p, p1 => p1 = p
+
+theorem stepOff_portV (fix : Fix) (hk : fix.keepPendingValue = true) (m : Master) (x : Off) (id : Nat) (p : MPort)
+    (hoff : m.online = false) (hp : findPort m.ports id = some p) (hx : x ≠ .ev (.portRemove id)) :
+    ∃ p1, findPort (stepOff fix m x).ports id = some p1 ∧ PortRelV id x p p1 := by
+  cases x with
+  | ev e => exact stepEvent_port_keptV fix m e id p hp (fun h => hx (by rw [h]))
+  | tick => exact drain_port_keptV fix hk m id p hp
+  | editValue i v ok =>
+    simp only [stepOff]; rw [editValue_offline m hoff]
+    exact ⟨_, findPort_upd_self m.ports i id (valueEdit v) (fun _ => rfl) p hp, rfl⟩
+  | editAttr i n v =>
+    simp only [stepOff]; rw [editAttr_offline m hoff]
+    exact ⟨_, findPort_upd_self m.ports i id (attrEdit n v) (fun _ => rfl) p hp, rfl⟩
+  | editDev n v =>
+    simp only [stepOff]; rw [editDev_offline m hoff]
+    exact ⟨p, hp, rfl⟩
+
+theorem stepOff_valueV (fix : Fix) (hk : fix.keepPendingValue = true) (m : Master) (x : Off) (id : Nat) (p : MPort)
+    (u : Int) (hoff : m.online = false) (hp : findPort m.ports id = some p) (hx : x ≠ .ev (.portRemove id))
+    (hv : p.pendValue = some u) :
+    ∃ p1, findPort (stepOff fix m x).ports id = some p1 ∧ p1.pendValue = some (updV id u x) := by
+  obtain ⟨p1, hp1, hr⟩ := stepOff_portV fix hk m x id p hoff hp hx
+  refine ⟨p1, hp1, ?_⟩
+  cases x with
+  | ev e => exact KeptV.pendValue hr hv
+  | tick => exact KeptV.pendValue hr hv
+  | editValue i v ok =>
+    simp only [PortRelV] at hr
+    subst hr
+    by_cases h : i = id
+    · simp only [h, if_true, updV]; rfl
+    · simp only [h, if_false, updV]; exact hv
+  | editAttr i n v =>
+    simp only [PortRelV] at hr
+    subst hr
+    by_cases h : i = id
+    · simp only [h, if_true, updV]; exact hv
+    · simp only [h, if_false, updV]; exact hv
+  | editDev n v =>
+    simp only [PortRelV] at hr
+    subst hr
+    exact hv
+
+/-- Repaired `read_value`: once a value is pending — WHATEVER is still queued on the port — every further history
+(events, ticks, edits of any kind on any port) leaves the LAST written value pending. -/
+theorem runOff_valueV (fix : Fix) (hk : fix.keepPendingValue = true) (id : Nat) (l : List Off) :
+    ∀ (m : Master) (p : MPort) (u : Int), m.online = false → findPort m.ports id = some p →
+      Off.ev (.portRemove id) ∉ l → p.pendValue = some u →
+      ∃ p', findPort (runOff fix m l).ports id = some p' ∧ p'.pendValue = some (valAfter id u l) := by
+  induction l with
+  | nil => intro m p u _ hp _ hv; exact ⟨p, hp, hv⟩
+  | cons x r ih =>
+    intro m p u hoff hp hnr hv
+    have hx : x ≠ Off.ev (.portRemove id) := fun h => hnr (h ▸ List.mem_cons_self ..)
+    have hr : Off.ev (.portRemove id) ∉ r := fun h => hnr (List.mem_cons_of_mem _ h)
+    obtain ⟨p1, hp1, hv1⟩ := stepOff_valueV fix hk m x id p u hoff hp hx hv
+    exact ih _ p1 _ (stepOff_online _ m x hoff) hp1 hr hv1
 
 theorem lastValue_from (id : Nat) (l : List Off) (u : Int) :
     l.foldl (fun acc x => match x with
@@ -266,12 +332,12 @@ theorem invA_attrEdit {p : MPort} {names : List Nat} {last : Nat → Option Int}
       · exact h3 n h
       · exact absurd h.symm hk
 
-theorem stepOff_attr (vb : Bool) (m : Master) (x : Off) (id : Nat) (p : MPort) (names : List Nat)
+theorem stepOff_attr (vb kv : Bool) (m : Master) (x : Off) (id : Nat) (p : MPort) (names : List Nat)
     (last : Nat → Option Int) (hoff : m.online = false) (hp : findPort m.ports id = some p)
     (hx : x ≠ .ev (.portRemove id)) (h : InvA p names last) :
-    ∃ p1, findPort (stepOff ⟨vb, true⟩ m x).ports id = some p1 ∧
+    ∃ p1, findPort (stepOff ⟨vb, true, kv⟩ m x).ports id = some p1 ∧
       InvA p1 (updNames id names x) (fun n => updA id n (last n) x) := by
-  obtain ⟨p1, hp1, hr⟩ := stepOff_port vb m x id p hoff hp hx
+  obtain ⟨p1, hp1, hr⟩ := stepOff_port vb kv m x id p hoff hp hx
   refine ⟨p1, hp1, ?_⟩
   cases x with
   | ev e => exact invA_of_kept hr h
@@ -295,10 +361,10 @@ theorem stepOff_attr (vb : Bool) (m : Master) (x : Off) (id : Nat) (p : MPort) (
     subst hr
     exact h
 
-theorem runOff_attr (vb : Bool) (id : Nat) (l : List Off) :
+theorem runOff_attr (vb kv : Bool) (id : Nat) (l : List Off) :
     ∀ (m : Master) (p : MPort) (names : List Nat) (last : Nat → Option Int), m.online = false →
       findPort m.ports id = some p → Off.ev (.portRemove id) ∉ l → InvA p names last →
-      ∃ p', findPort (runOff ⟨vb, true⟩ m l).ports id = some p' ∧
+      ∃ p', findPort (runOff ⟨vb, true, kv⟩ m l).ports id = some p' ∧
         InvA p' (namesAfter id names l) (fun n => attrAfter id n (last n) l) := by
   induction l with
   | nil => intro m p names last _ hp _ h; exact ⟨p, hp, h⟩
@@ -306,7 +372,7 @@ theorem runOff_attr (vb : Bool) (id : Nat) (l : List Off) :
     intro m p names last hoff hp hnr h
     have hx : x ≠ Off.ev (.portRemove id) := fun e => hnr (e ▸ List.mem_cons_self ..)
     have hr : Off.ev (.portRemove id) ∉ r := fun e => hnr (List.mem_cons_of_mem _ e)
-    obtain ⟨p1, hp1, h1⟩ := stepOff_attr vb m x id p names last hoff hp hx h
+    obtain ⟨p1, hp1, h1⟩ := stepOff_attr vb kv m x id p names last hoff hp hx h
     exact ih _ p1 _ _ (stepOff_online _ m x hoff) hp1 hr h1
 
 theorem filterMap_congr_mem {α β : Type} {f g : α → Option β} (l : List α) (h : ∀ a ∈ l, f a = g a) :
@@ -346,13 +412,13 @@ theorem invA_start (p : MPort) (hs : ∀ n ∈ p.prov, (p.attrs.get? n).isSome) 
 
 /-! ### The hub's ticks read the queue out -/
 
-theorem findPort_drain (m : Master) (id : Nat) :
-    findPort (drain m).2.ports id = (findPort m.ports id).map (fun p => (drainPort p.rq.length p).2) := by
+theorem findPort_drain (fix : Fix) (m : Master) (id : Nat) :
+    findPort (drain fix m).2.ports id = (findPort m.ports id).map (fun p => (drainPort fix p.rq.length p).2) := by
   unfold drain
   simp only [List.map_map]
   unfold findPort
   rw [List.find?_map]
-  have : ((fun p => p.id == id) ∘ (fun x => x.2) ∘ fun p => drainPort p.rq.length p)
+  have : ((fun p => p.id == id) ∘ (fun x => x.2) ∘ fun p => drainPort fix p.rq.length p)
       = (fun p : MPort => p.id == id) := by
     funext q
     simp only [Function.comp, drainPort_id]
@@ -360,13 +426,13 @@ theorem findPort_drain (m : Master) (id : Nat) :
   rfl
 
 /-- After a tick of the hub's polling loop the remote queue of an enabled port is empty. -/
-theorem quiet_after_tick (m : Master) (id : Nat) (p : MPort) (hp : findPort m.ports id = some p)
-    (he : p.enabled = true) : ∃ p', findPort (drain m).2.ports id = some p' ∧ p'.rq = [] := by
+theorem quiet_after_tick (fix : Fix) (m : Master) (id : Nat) (p : MPort) (hp : findPort m.ports id = some p)
+    (he : p.enabled = true) : ∃ p', findPort (drain fix m).2.ports id = some p' ∧ p'.rq = [] := by
   rw [findPort_drain, hp]
   refine ⟨_, rfl, ?_⟩
-  show (drainPort p.rq.length p).2.rq = []
-  rw [drainPort_spec _ p he (Nat.le_refl _)]
-  exact drained_rq p
+  show (drainPort fix p.rq.length p).2.rq = []
+  rw [drainPort_spec fix _ p he (Nat.le_refl _)]
+  exact drained_rq fix p
 
 /-! ### Registry ids stay distinct -/
 
@@ -374,7 +440,7 @@ theorem nodup_stepOff (fix : Fix) (m : Master) (x : Off) (hoff : m.online = fals
     ((stepOff fix m x).ports.map (·.id)).Nodup := by
   cases x with
   | ev e => exact nodup_stepEvent fix m e h
-  | tick => exact nodup_drain m h
+  | tick => exact nodup_drain fix m h
   | editValue id v ok => exact nodup_editValue m hoff id v ok h
   | editAttr id n v => exact nodup_editAttr m hoff id n v h
   | editDev n v => simp only [stepOff]; rw [editDev_offline m hoff]; exact h
